@@ -9,7 +9,7 @@
 
     Oracles = the carrier operations of Model/EReal.v, Model/Trop.v (proved to be semirings with
     least-solution star in Proofs/SemiringLaws.v).  Models = the code's formulas of
-    Model/SemiringCode.v (proved equal to the carrier operations, except Viterbi star at 0).
+    Model/SemiringCode.v (proved equal to the carrier operations).
 
     How a binary64 result r is judged against the exact value m ([accept_q]):
       - r = +-inf  iff  |m| >= 2^1024 - 2^970 (the rounding threshold of binary64);
@@ -264,17 +264,17 @@ Definition c08_law_check (c : nat * nat * (wire * wire * wire) * (wire * wire)) 
         else 0%nat
     end.
 
-(** leastness, judged on implementation values only: (sr, y, fy, s) with fy = 1 + x*y and
-    s = star(x) as computed by the implementation.  If y is a solution (fy = y) then s <= y. *)
+(** leastness: (sr, x, y, s) with s = star(x) as computed by the implementation.  If y solves
+    y = 1 + x*y EXACTLY in the carrier (decided here, so float absorption such as
+    1 + 1e308 = 1e308 cannot fake a solution) then s <= y is required. *)
+Definition xr_eqb (a b : xr) : bool := xle a b && xle b a.
 Definition c08_least_check (c : nat * wire * wire * wire) : nat :=
-  let '(sr, y, fy, s) := c in
-  let Y := w_xr y in let FY := w_xr fy in let S := w_xr s in
-  match Y, FY with
-  | XNaN, _ | _, XNaN => 20%nat
-  | _, _ =>
-      let same := xle Y FY && xle FY Y in
-      if same && negb (xle S Y) then 3%nat else 0%nat
-  end.
+  let '(sr, x, y, s) := c in
+  let X := w_xr x in let Y := w_xr y in let S := w_xr s in
+  let O := oracle_of sr in
+  if negb (i_in O X && i_in O Y) then 20%nat
+  else if xr_eqb (i_add O (i_one O) (i_mul O X Y)) Y && negb (xle S Y) then 3%nat
+  else 0%nat.
 
 (* ------------------------------------------------------------------------- *)
 (** * LogSemiring, exp reading.  Inputs: e^x as a rational (50 significant digits, computed by
@@ -337,3 +337,19 @@ Definition c08_bool_check (c : nat * nat * list bool * bool) : nat :=
   | Some (spec, model) =>
       if negb (Bool.eqb spec r) then 1%nat else if negb (Bool.eqb model r) then 10%nat else 0%nat
   end.
+
+(** Log law instances: (law, (x, y, z) in the exp reading, (lhs, rhs) as log results); both
+    implementation values must contain the common exact value of the law in their interval *)
+Definition c08_log_law_check (c : nat * (wire * wire * wire) * (log_result * log_result)) : nat :=
+  let '(n, (x, y, z), (lhs, rhs)) := c in
+  let X := w_xr x in let Y := w_xr y in let Z := w_xr z in
+  let O := oracle_of 0 in
+  if negb (i_in O X && i_in O Y && i_in O Z) then 20%nat
+  else
+    let '(l, r, e) := law_table n in
+    if negb (law_guard 0 n X Y) then 0%nat
+    else
+      let m := lev O X Y Z e in
+      if negb (accept_log m lhs) then 1%nat
+      else if negb (accept_log m rhs) then 2%nat
+      else 0%nat.
